@@ -77,6 +77,10 @@ def plan(run):
     P.append(('numpy', (9, 5, 40), -2, (4, 4, -1), {'rate_true': Fr(1, 2)}))
     P.append(('numpy', (9, 5, 40), "8", (4, -1, 256), {'rate_true': 8}))
     P.append(('numpy', (9, 9, 9), -1, (16, 16, 4), {'rate_true': 32}))
+    # arrays that are not C-contiguous (Fortran order, strided and reversed views, a transposed buffer)
+    for j, lay in enumerate(('F', 'stride', 'rev', 'T')):
+        P.append(('numpy', (9, 10, 70), 16, (4, 4, -1), {'layout': lay}))
+        P.append(('numpy', (6, 11, 40), 32, ((8, 8, 16), (4, 8, 32), (16, 16, 4), (8, 8, 16))[j], {'layout': lay}))
     # SEG-Y routes
     # inline counts below, at and above a multiple of the block height (the last plane set full / short)
     # (and more than one block along the crossline AND the sample axis: the order in which a plane set's blocks are queued)
@@ -105,7 +109,19 @@ def _make(item):
     res = {'k': k, 'written': False}
     try:
         if route == 'numpy':
-            writers.numpy_to_sgz(p, cube, rate if isinstance(rate, (str, int)) else writers.rate_arg(rate), bs)
+            arr = cube
+            lay = opts.get('layout')       # the same values handed over in another memory layout
+            if lay == 'F':
+                arr = np.asfortranarray(cube)
+            elif lay == 'stride':
+                big = np.zeros((shape[0] * 2, shape[1], shape[2] + 3), dtype=np.float32)
+                big[::2, :, 1:-2] = cube
+                arr = big[::2, :, 1:-2]
+            elif lay == 'rev':
+                arr = np.ascontiguousarray(cube[::-1, :, ::-1])[::-1, :, ::-1]
+            elif lay == 'T':
+                arr = np.ascontiguousarray(cube.transpose(2, 0, 1)).transpose(1, 2, 0)
+            writers.numpy_to_sgz(p, arr, rate if isinstance(rate, (str, int)) else writers.rate_arg(rate), bs)
             src = cube
         else:
             sgy = os.path.join(d, f'f{k}.sgy')
